@@ -346,6 +346,26 @@ func (tLib *typeLib) compile(from types.Type) wir.ValueType {
 
 			newType.AddMethod(method)
 		}
+		// methods declared with a value receiver: (*T).M above is only the synthesized wrapper,
+		// the declared (T).M it calls has to be compiled as well
+		if pt, ok := from.(*types.Pointer); ok {
+			vset := tLib.prog.SSAProgram.MethodSets.MethodSet(pt.Elem())
+			for i := 0; i < vset.Len(); i++ {
+				if mfn := tLib.prog.SSAProgram.MethodValue(vset.At(i)); mfn != nil {
+					tLib.pendingMethods = append(tLib.pendingMethods, mfn)
+				}
+			}
+		}
+	}
+
+	// a named type whose pointer type is never mentioned still needs its value-receiver methods
+	if _, ok := from.(*types.Named); ok {
+		vset := tLib.prog.SSAProgram.MethodSets.MethodSet(from)
+		for i := 0; i < vset.Len(); i++ {
+			if mfn := tLib.prog.SSAProgram.MethodValue(vset.At(i)); mfn != nil {
+				tLib.pendingMethods = append(tLib.pendingMethods, mfn)
+			}
+		}
 	}
 
 	tsize := newType.Size()
